@@ -70,8 +70,9 @@ type vfRunResult struct {
 	err    error
 	stdout string
 	writes []string
-	log    []string
-	fmtLog []string
+	log     []string
+	fmtLog  []string
+	touched []string
 }
 
 // vfRunBuild runs the real `build` command (RunE) in the virtual environment.
@@ -99,7 +100,7 @@ func vfRunBuild(sc vfScenario, quiet, stub, ignoreParams, ignoreServices bool) v
 		_ = cmd.Flags().Set("ignore-missing-services", "true")
 	}
 	err := cmd.RunE(cmd, nil)
-	return vfRunResult{err: err, stdout: out.text, writes: runner.VfEnv.Writes, log: runner.VfEnv.Log, fmtLog: template.VfFmtEnv.Calls}
+	return vfRunResult{err: err, stdout: out.text, writes: runner.VfEnv.Writes, log: runner.VfEnv.Log, fmtLog: template.VfFmtEnv.Calls, touched: runner.VfEnv.Touched}
 }
 
 // vfScenarioChoice draws an environment: 1-2 patterns over two files, each
@@ -158,12 +159,13 @@ func VF_C10_contract() {
 	}
 	if r.err == nil {
 		vfAssert(wrote == 1 && len(r.writes) == 1, "success: the output was written exactly once, successfully")
+		vfAssert(len(r.touched) == 0, "success: nothing else is created, truncated, removed or renamed")
 		vfAssert(len(r.log) > 0 && r.log[len(r.log)-1] == "write:out.go", "success: the write is the last effect, to the -o path")
 		vfAssert(len(r.writes) == 1 && r.writes[0] != "", "success: the complete generated source was written")
 		vfAssert(!strings.Contains(r.stdout, "Errors:"), "success: no error list is printed")
 		vfAssert(len(r.fmtLog) == 2 && r.fmtLog[0] == "format" && r.fmtLog[1] == "imports", "success: the text went through gofmt and goimports before being written")
 	} else {
-		vfAssert(len(r.writes) == 0, "failure: the -o path is left exactly as it was")
+		vfAssert(len(r.writes) == 0 && len(r.touched) == 0, "failure: the -o path is left exactly as it was")
 		vfAssert(wrote == 0 || sc.writeErr, "failure: nothing is written unless the write itself is what failed")
 		errs := grouperror.Collection(r.err)
 		n := len(errs)
@@ -224,7 +226,7 @@ func VF_C10_quiet() {
 	quiet := vfRunBuild(sc, true, false, false, false)
 	vfAssert(quiet.stdout == "", "--quiet prints nothing")
 	vfAssert((quiet.err == nil) == (loud.err == nil), "--quiet does not change the exit status")
-	vfAssert(len(quiet.writes) == len(loud.writes), "--quiet does not change the file effect")
+	vfAssert(len(quiet.writes) == len(loud.writes) && len(quiet.touched) == len(loud.touched), "--quiet does not change the file effect")
 	if len(quiet.writes) == 1 && len(loud.writes) == 1 {
 		vfAssert(quiet.writes[0] == loud.writes[0], "--quiet does not change the generated text")
 	}
